@@ -509,6 +509,25 @@ def scenarios(run, seed, thorough):
             ],
         )
     )
+    # ---- the same history-relative path in the outer and in nested histories (clip.txt, A001/clip.txt, A001/sub/clip.txt):
+    # a file that is new in one history while its namesake in another history is already recorded, and the other way round
+    for rep, creation in enumerate([["A001", ""], ["A001/sub", "A001", ""], ["", "A001"]]):
+        n = len(creation) + 4
+        name = f"{P}samename/{rep}"
+        rnd = random.Random(name)
+        late = len(creation)  # born in the first step after all histories exist
+        files = [
+            File("clip.txt", ("A" * (late + 1) + "BAB" + "A" * n)[:n], stealth=True),  # recorded early, altered when its namesake is born
+            File("A001/clip.txt", ("-" * (late + 1) + "A" * n)[:n]),
+            File("A001/other.txt", "A" * n),
+            File("A001/sub/clip.txt", ("A" * (late + 2) + "B" * n)[:n], stealth=True),
+            File("A001/sub/keep.txt", "A" * n),
+            File("sub/clip.txt", ("-" * (late + 2) + "A" * n)[:n]),
+            File("zz/clip.txt", ("A" * (late + 1) + "B" + "A" * n)[:n]),
+        ]
+        seq = rsets(rnd, n)
+        steps = [{"fmts": seq[k], "mode": "abs", "target": creation[k] if k < len(creation) else ""} for k in range(n)]
+        out.append(Scenario(name, files, steps))
     # ---- the suite's own sequences and the sequence that used to abort, on kept and altered content
     fixed = [
         [["xxh64"], ["md5"]],
